@@ -28,6 +28,7 @@ import (
 	"github.com/onsi/ginkgo/v2"
 	"github.com/palomachain/paloma/v2/tests/integration/helper"
 	utilkeeper "github.com/palomachain/paloma/v2/util/keeper"
+	consensusmodule "github.com/palomachain/paloma/v2/x/consensus"
 	"github.com/palomachain/paloma/v2/verifharness/emit"
 	consensustypes "github.com/palomachain/paloma/v2/x/consensus/types"
 	evmkeeper "github.com/palomachain/paloma/v2/x/evm/keeper"
@@ -261,6 +262,25 @@ func attestedCase(t *testing.T, run *emit.Run, r *rand.Rand) {
 	if r.Intn(4) == 0 {
 		proofs = append(proofs, nil)
 	}
+	// partially malformed proofs: they unpack, but their bytes to hash cannot be built
+	malformed := -1
+	if r.Intn(3) == 0 {
+		bad := []evmtypes.Hashable{
+			&evmtypes.TxExecutedProof{SerializedTX: legacyTx(7, 7), SerializedReceipt: []byte{0xff}},      // tx fine, receipt garbage
+			&evmtypes.TxExecutedProof{SerializedTX: typedTx(7, 7, true), SerializedReceipt: []byte{1, 2}}, // tx fine, receipt garbage
+			&evmtypes.TxExecutedProof{SerializedTX: []byte{1, 2, 3}, SerializedReceipt: receiptOf(1, 100, 0)},
+			&evmtypes.TxExecutedProof{},
+		}
+		malformed = len(proofs)
+		proofs = append(proofs, bad[r.Intn(len(bad))])
+	}
+	unhashable := func(p evmtypes.Hashable) bool {
+		if p == nil {
+			return true
+		}
+		_, err := p.BytesToHash()
+		return err != nil
+	}
 	var pitems, pdesc []string
 	for _, p := range proofs {
 		pitems = append(pitems, cproof(p))
@@ -322,14 +342,38 @@ func attestedCase(t *testing.T, run *emit.Run, r *rand.Rand) {
 		return ""
 	}
 
+	// block heights: the request was added at height 5.  "late": everything happens around a pruning block
+	// (height = 0 mod 50) when the request is older than 300 blocks
+	const added = 5
+	height := int64(6)
+	late := r.Intn(3) == 0
+	pruneBlock := int64(50 * (7 + r.Intn(4)))
+	if late {
+		height = pruneBlock - 1
+	}
+	hctx := func() sdk.Context { return ctx.WithBlockHeight(height) }
+	module := consensusmodule.NewAppModule(f.Codec, f.ConsensusKeeper, nil, nil)
 	process := func() {
-		must(f.ConsensusKeeper.CheckAndProcessAttestedMessages(ctx))
+		// the consensus MODULE's end-blocker (estimates, attestation, pruning), not the keeper function
+		must(module.EndBlock(hctx()))
 		ms, err := f.ConsensusKeeper.GetMessagesFromQueue(ctx, queue, 0)
 		must(err)
 		removed = len(ms) == 0
 		p, _ := agreed()
+		declared := false
+		if isRef {
+			h, s := refNow()
+			declared = h != 123 || s != "0x1234"
+		} else {
+			for _, b := range balNow() {
+				declared = declared || b != ""
+			}
+		}
+		pruneDue := height%50 == 0 && height-added > 300
 		got := "(-1)"
-		if removed {
+		if removed && !declared {
+			got = "(-4)"
+		} else if removed {
 			got = "(-3)"
 			if isRef {
 				h, s := refNow()
@@ -341,9 +385,12 @@ func attestedCase(t *testing.T, run *emit.Run, r *rand.Rand) {
 				}
 			}
 		}
-		trace = append(trace, "process -> removed="+strconv.FormatBool(removed))
-		opItems = append(opItems, "C04.AProcess "+got)
-		run.Count("attested-process", map[bool]string{true: "removed", false: "stays"}[removed])
+		trace = append(trace, fmt.Sprintf("EndBlock at height %d -> removed=%v effects-applied=%v", height, removed, declared))
+		opItems = append(opItems, fmt.Sprintf("C04.AEndBlock %d %s", height, got))
+		run.Count("attested-process", map[bool]string{true: map[bool]string{true: "declared", false: "pruned"}[declared], false: "stays"}[removed])
+		if height%50 == 0 {
+			run.Count("attested-endblock-height", map[bool]string{true: "0 mod 50, older than 300", false: "0 mod 50, young"}[pruneDue])
+		}
 		violate := func(id, what string) {
 			// the two weak encodings of the source as it is pool different answers: every consequence of that
 			// (removal without two thirds, the pooled sibling applied instead of the agreed answer) is that finding
@@ -353,6 +400,12 @@ func attestedCase(t *testing.T, run *emit.Run, r *rand.Rand) {
 			run.Violate(id, what, replay())
 		}
 		switch {
+		case removed && !declared && p != nil:
+			violate("C04:pruned-although-two-thirds-agree", fmt.Sprintf("a %s request was removed at height %d without being declared and without its effects although 2/3 of the snapshot shares stand behind one answer at that moment", sub, height))
+		case removed && !declared && !pruneDue:
+			violate("C04:removed-without-declaration", fmt.Sprintf("a %s request was removed at height %d without effects although no pruning is due", sub, height))
+		case removed && !declared:
+			// pruned: older than 300 blocks at a height = 0 mod 50, no answer with two thirds
 		case removed && p == nil:
 			violate("C04:message-removed-without-two-thirds-on-fields",
 				"a "+sub+" request was declared answered and removed although no answer is backed, field by field, by 2/3 of the snapshot shares")
@@ -425,6 +478,13 @@ func attestedCase(t *testing.T, run *emit.Run, r *rand.Rand) {
 		if r.Intn(3) == 0 && len(proofs) > 1 && proofs[1] != nil { // a dissenting light / heavy validator afterwards
 			plan = append(plan, planned{order[nv-1], 1})
 		}
+		if malformed >= 0 && r.Intn(3) != 0 { // first of all a partially malformed proof, from an outsider or the last validator in the order
+			who := outsiderID
+			if r.Intn(2) == 0 && pattern == 2 {
+				who = order[nv-1]
+			}
+			plan = append([]planned{{who, malformed}}, plan...)
+		}
 		nops = len(plan)
 		run.Count("attested-pattern", map[int]string{2: "heavy-agree", 3: "light-agree"}[pattern])
 	} else {
@@ -443,17 +503,39 @@ func attestedCase(t *testing.T, run *emit.Run, r *rand.Rand) {
 			w = 0
 		}
 		if plan != nil {
-			id, addr, w = plan[j].id, addrs[plan[j].id], plan[j].w
+			id, w = plan[j].id, plan[j].w
+			addr = outsider
+			if id != outsiderID {
+				addr = addrs[id]
+			}
+		}
+		// heights
+		switch {
+		case late && plan != nil:
+			if j == nops-1 {
+				height = pruneBlock // the last submission arrives in the pruning block itself
+			}
+		case late:
+			if height <= pruneBlock && r.Intn(3) == 0 {
+				height++
+			}
+		default:
+			height++
+			if r.Intn(5) == 0 && height < 250 {
+				height = (height/50 + 1) * 50
+			}
 		}
 		m := &consensustypes.MsgAddEvidence{MessageID: msgID, QueueTypeName: queue}
 		if proofs[w] != nil {
 			m.Proof = anyOf(t, proofs[w])
 		}
-		err := f.ConsensusKeeper.AddMessageEvidence(ctx, addr, m)
+		err := f.ConsensusKeeper.AddMessageEvidence(hctx(), addr, m)
 		if err == nil {
 			latest[id] = w
 			if proofs[w] == nil {
 				run.Violate("C04:proofless-evidence-accepted", "AddMessageEvidence accepted evidence without a proof", replay())
+			} else if unhashable(proofs[w]) {
+				run.Violate("C04:unhashable-evidence-accepted", "AddMessageEvidence accepted evidence whose bytes to hash cannot be built ("+describe(proofs[w])+"): every later attestation run of the request fails on it", replay())
 			}
 		}
 		trace = append(trace, fmt.Sprintf("validator %d submits proof %d -> ok=%v", id, w, err == nil))
@@ -467,5 +549,6 @@ func attestedCase(t *testing.T, run *emit.Run, r *rand.Rand) {
 	}
 	run.Count("kind", "attested")
 	run.Count("attested-request", sub)
-	run.Case(fmt.Sprintf("C04.CAttest %s %s %s", coqSn, emit.List(pitems), emit.List(opItems)), true, replay())
+	run.Count("attested-timing", map[bool]string{true: "around a pruning block, older than 300", false: "young"}[late])
+	run.Case(fmt.Sprintf("C04.CAttest %s %d %s %s", coqSn, added, emit.List(pitems), emit.List(opItems)), true, replay())
 }
